@@ -73,8 +73,13 @@ def run(ctx):
                 listing = fsys.listdir(sdir)
                 try:
                     if i % 4 == 0 and "song.ssc" in tree:
-                        # the asset loader opens the directory's own simfile when none is supplied
-                        assets = Assets(sdir, filesystem=fsys)
+                        # the asset loader opens the directory's own simfile when none is supplied — directly, or through
+                        # SimfileDirectory(dir).assets()
+                        if i % 8 == 0:
+                            from simfile.dir import SimfileDirectory
+                            assets = SimfileDirectory(sdir, filesystem=fsys).assets()
+                        else:
+                            assets = Assets(sdir, filesystem=fsys)
                         if [[k, v] for k, v in assets.simfile.items()] != [[k, v] for k, v in sf.items()]:
                             res.violation({"fs": fsname, "tree": list(tree)}, "Assets(dir) did not load the directory's simfile"); continue
                     else:
